@@ -275,7 +275,11 @@ impl BasicLexer {
                     if !is_basic_digit(pk) {
                         exp = false;
                         s.pop();
+                        if ch == 'D' {
+                            digits -= 8;
+                        }
                         self.chars.push_front(ch);
+                        break;
                     }
                 }
                 if is_basic_digit(pk) {
@@ -284,7 +288,7 @@ impl BasicLexer {
                 if !exp && !decimal && pk == '.' {
                     continue;
                 }
-                if !exp && pk == 'E' || pk == 'e' || pk == 'D' || pk == 'd' {
+                if !exp && (pk == 'E' || pk == 'e' || pk == 'D' || pk == 'd') {
                     continue;
                 }
                 if pk == '!' || pk == '#' || pk == '%' {
